@@ -266,7 +266,7 @@ def mccParts (o : Ops α) (C : (List Int → α) → (List Int → α) → α) (
 def mccFinish (o : Ops α) (thousand ratio : α) (parts : α × α × α) (maxDen maxOv : α) : α :=
   let (num, den, ov) := parts
   let tol := o.mul (o.mul thousand o.eps) maxDen
-  let den' := if o.lt den tol then o.one else den
+  let den' := if o.lt tol den then den else o.one     -- `temp2[temp2 <= tol] = 1`
   let s := o.div num den'
   let s := if o.lt s (o.sub o.zero o.one) then o.sub o.zero o.one else if o.lt o.one s then o.one else s
   if o.lt ov (o.mul ratio maxOv) then o.zero else s
